@@ -63,6 +63,8 @@ InvShift     == ShiftInvariantOffTies(H, r, ppp, Shifts)
 InvIdem      == Idempotent(H, r, ppp)
 InvShortest  == ShortestImageOrthogonal(H, r, ppp)
 InvNonEmpty  == MinImage(H, r, ppp) # {}
+\* the image counts TLC uses are the set characterised (for all integers) in MinImageLemma.tla
+InvNearestIsLemmaSet == \A k \in 1..D : NearestIsClosedHalfCell(FracNum(H, r)[k], FracDen(H))
 
 \* ---- emission (direction A): one case per (cell, mask) ----
 RECURSIVE Pow(_, _)
